@@ -3,4 +3,4 @@ From Coq Require Import QArith.
 From SV Require Import Model.C14_Fit1d Model.C14_Dubins Model.C14_Reparam Model.C14_Misc.
 Definition a_rows_id (id : nat) := A_rows (spec_of_id id).
 Definition b_vec_id (id : nat) := b_vec (spec_of_id id).
-Extraction "model.ml" residual_id a_rows_id b_vec_id n_eq_id n_coef_id dubins_select dubins_angle len_of fwd_step acc_bound init_v2m reparam seg_val seg_du num_pts bs_tmin bs_tmax Qred.
+Extraction "model.ml" residual_id a_rows_id b_vec_id n_eq_id n_coef_id dubins_select dubins_angle len_of fwd_step acc_bound init_v2m reparam seg_val seg_du num_pts bs_istar bs_tmin bs_tmax bwd_rows rows_ok v2max_of_lp Qred.
